@@ -4,7 +4,13 @@
    specification (spec/GraphS.v); [Inv] is the store invariant (links are a bijection of sub-ports whose
    sub-offsets are an initial segment on every port; free stack = holes, duplicate-free; every link
    endpoint is a live node within its declared port count; children lists partition the live non-root
-   nodes) and [Rep h g] says that h and g hold the same node map, the same multiset of links, the same root. *)
+   nodes) and [Rep h g] says that h and g hold the same node map, the same multiset of links, the same root.
+
+   WHICH free index a new node receives is not part of the property (only: live nodes keep their index, a deleted
+   node is unreachable).  The model therefore takes that choice as an oracle ([prefer], [bstep_at], [step] of
+   model/Graph.v: the oracle is the value the implementation returned, and it is followed when it names a free
+   index); every statement below that involves an allocation is quantified over ALL oracles [pick], so it holds
+   for LIFO reuse (hugr-py as written, = no oracle), smallest-first, FIFO or any other admissible policy. *)
 From Coq Require Import List Bool Arith ZArith Permutation.
 Import ListNotations.
 From HV Require Import lib.PyDict lib.Harness model.BiMapM model.Graph spec.GraphS proofs.GraphP proofs.GraphInvP
@@ -22,41 +28,61 @@ Section C04.
   (* one mutator call inside the property's guard (live node arguments, non-root leaf deletion, offsets >= -1):
      the model returns normally, the value it returns is acceptable to the specification, the invariant is
      kept and the new state represents the specification's new state *)
-  Theorem C04_step_refines : forall (h : hugr) (g : agraph) c h' rt r, Inv h -> Rep h g -> bstep h c = (h', rt, r) ->
+  Theorem C04_step_refines : forall pick (h : hugr) (g : agraph) c h' rt r, Inv h -> Rep h g ->
+    bstep_at pick h c = (h', rt, r) ->
+    match s_bstep g c rt with
+    | OutOfScope => True
+    | Bad => False
+    | Next g' => r = Ok /\ Inv h' /\ Rep h' g'
+    end.
+  Proof. exact bstep_at_refines. Qed.
+  (* the instance without a choice: hugr-py as written (the most recently freed index) *)
+  Theorem C04_step_refines_lifo : forall (h : hugr) (g : agraph) c h' rt r, Inv h -> Rep h g -> bstep h c = (h', rt, r) ->
     match s_bstep g c rt with
     | OutOfScope => True
     | Bad => False
     | Next g' => r = Ok /\ Inv h' /\ Rep h' g'
     end.
   Proof. exact bstep_refines. Qed.
+  (* the oracle only reorders the free indices: invariant, representation and every query are insensitive to it,
+     and an admissible choice (a free index) is the index the next add_node returns *)
+  Theorem C04_choice_keeps_invariant_and_state : forall pick (h : hugr) g, Inv h -> Rep h g ->
+    Inv (prefer pick h) /\ Rep (prefer pick h) g /\ forall n, get_node (prefer pick h) n = get_node h n.
+  Proof. intros pick h g HI HR. split; [exact (Inv_prefer pick h HI)|]. split; [exact (Rep_prefer pick h g HR)|]. exact (prefer_get pick h). Qed.
+  Theorem C04_admissible_choice_is_taken : forall (h : hugr) f o p k m, In f (free h) ->
+    snd (fst (add_node_raw (prefer (Some f) h) o p k m)) = f.
+  Proof. exact add_node_takes_the_choice. Qed.
 
   (* store_inv_reachable, in full: after every finite history of add_node / add_const / add_link / add_order_link /
      delete_link / delete_node / insert_hugr calls inside the guard ([guarded]: live node arguments, offsets >= -1,
      non-root leaf deletion, insertion of a HUGR itself built inside the guard under a live parent) every call
      returned normally and the invariant holds (with well-foundedness of the hierarchy) *)
-  Theorem C04_store_inv_reachable : forall (o : Op) (m : Meta) cs,
+  Theorem C04_store_inv_reachable : forall (o : Op) (m : Meta) (cs : list (cmd Op Meta * ret)),
     guarded (init o m) cs -> Inv (run (init o m) cs) /\ WF (run (init o m) cs).
   Proof. exact store_inv_reachable. Qed.
-  Theorem C04_step_inside_guard_returns : forall (h : hugr) c, Inv h -> WF h -> guarded1 h c ->
-    snd (step h c) = Ok /\ Inv (fst (fst (step h c))) /\ WF (fst (fst (step h c))).
+  Theorem C04_step_inside_guard_returns : forall pick (h : hugr) c, Inv h -> WF h -> guarded1 pick h c ->
+    snd (step pick h c) = Ok /\ Inv (fst (fst (step pick h c))) /\ WF (fst (fst (step pick h c))).
   Proof. exact step_inv. Qed.
 
   (* store_refines_spec, in full: for all finite histories of add_node / add_const / add_link / add_order_link /
      delete_link / delete_node / insert_hugr calls.  [ctrace] pairs every command with the value the model returned,
      [s_run] runs the sequential specification on it; [annot_ok]: an insert_hugr command carries the source's own
-     history with the values returned while building it (what the harness records).  Whenever the specification
+     history with the values returned while building it (what the harness records); every command of [cs] comes with
+     the oracle for its free-index choices.  Whenever the specification
      accepts the history (every call inside the guard), every call returned normally, the invariant holds and the
      final state represents the specification's final state -- so every query below agrees. *)
-  Theorem C04_store_refines_spec : forall (o : Op) (m : Meta) cs g', Forall annot_ok cs ->
+  Theorem C04_store_refines_spec : forall (o : Op) (m : Meta) (cs : list (cmd Op Meta * ret)) g',
+    Forall annot_ok (map fst cs) ->
     s_run (s_init 0 o m) (ctrace (init o m) cs) = Next g' ->
     Inv (run (init o m) cs) /\ WF (run (init o m) cs) /\ Rep (run (init o m) cs) g'.
   Proof. exact store_refines_spec. Qed.
   (* the specification never rejects a value the model returns (fresh node indices, bijective fresh mappings) *)
-  Theorem C04_spec_never_rejects : forall (o : Op) (m : Meta) cs, Forall annot_ok cs ->
+  Theorem C04_spec_never_rejects : forall (o : Op) (m : Meta) (cs : list (cmd Op Meta * ret)),
+    Forall annot_ok (map fst cs) ->
     s_run (s_init 0 o m) (ctrace (init o m) cs) <> Bad.
   Proof. exact spec_never_rejects. Qed.
-  Theorem C04_step_refines_with_insert : forall (h : hugr) g c h' rt r, Inv h -> WF h -> Rep h g -> annot_ok c ->
-    step h c = (h', rt, r) ->
+  Theorem C04_step_refines_with_insert : forall pick (h : hugr) g c h' rt r, Inv h -> WF h -> Rep h g -> annot_ok c ->
+    step pick h c = (h', rt, r) ->
     match s_step g c rt with
     | OutOfScope => True
     | Bad => False
@@ -111,11 +137,11 @@ Section C04.
   Proof. exact incoming_refine. Qed.
 
   (* the corollaries named in the property text *)
-  Theorem C04_live_nodes_keep_index : forall (h : hugr) g c h' rt r g' n d, Inv h -> Rep h g ->
-    bstep h c = (h', rt, r) -> s_bstep g c rt = Next g' -> get_node h n = Some d -> c <> DelNode n ->
+  Theorem C04_live_nodes_keep_index : forall pick (h : hugr) g c h' rt r g' n d, Inv h -> Rep h g ->
+    bstep_at pick h c = (h', rt, r) -> s_bstep g c rt = Next g' -> get_node h n = Some d -> c <> DelNode n ->
     exists d', get_node h' n = Some d' /\ nd_op d' = nd_op d /\ nd_parent d' = nd_parent d /\ nd_meta d' = nd_meta d /\
                (nd_inps d <= nd_inps d')%Z /\ (nd_outs d <= nd_outs d')%Z.
-  Proof. exact live_nodes_keep_index. Qed.
+  Proof. exact live_nodes_keep_index_at. Qed.
   Theorem C04_deleted_node_unreachable_and_unmentioned : forall (h : hugr) g n a, Inv h -> Rep h g ->
     dget Nat.eqb (a_nodes g) n = Some a -> a_children a = [] -> n <> a_root g ->
     exists h', delete_node h n = (h', Ok) /\ get_node h' n = None /\ ~ In n (iter_nodes h') /\
@@ -137,11 +163,11 @@ Section C04.
     (exists k, num_out_ports h (fst s) = Some k /\ (snd s + 1 <= k)%Z) /\
     (exists k, num_in_ports h (fst t) = Some k /\ (snd t + 1 <= k)%Z).
   Proof. exact port_count_lower_bounds. Qed.
-  Theorem C04_port_count_at_creation : forall (h : hugr) g o parent k m, Inv h -> Rep h g ->
+  Theorem C04_port_count_at_creation : forall pick (h : hugr) g o parent k m, Inv h -> Rep h g ->
     a_live g (dflt g parent) = true ->
-    exists h' n, add_node h o parent k m = (h', n, Ok) /\ num_out_ports h' n = Some (zdflt k) /\
+    exists h' n, add_node (prefer pick h) o parent k m = (h', n, Ok) /\ num_out_ports h' n = Some (zdflt k) /\
                  q_parent h' n = Some (Some (dflt g parent)) /\ get_node h n = None.
-  Proof. exact port_count_at_creation. Qed.
+  Proof. exact port_count_at_creation_at. Qed.
 End C04.
 
 (* the link loops never run out of fuel (the outcome EFuel of the model is unreachable under the invariant) *)
@@ -153,25 +179,49 @@ Theorem C04_add_link_total : forall (b : lmap) src dst, LInv b ->
 Proof. exact lm_add_ok. Qed.
 
 (* non-vacuity: the guard of the history theorem holds of a history with a three-way fan-out, a deletion in its
-   middle (D4), a node deletion inside it (D5), order links (D6) and index reuse *)
-Definition ex_history : list (bcmd nat nat) :=
+   middle (D4), a node deletion inside it (D5), order links (D6) and index reuse -- once without choices (the most
+   recently freed index 3 is reused) and once with the OTHER free index chosen
+   (4 instead of 3), which the later commands then refer to *)
+Definition ex_prefix : list (bcmd nat nat) :=
   [AddNode 1 None None 0; AddNode 1 None (Some 2%Z) 0; AddNode 1 None None 0; AddNode 1 (Some 1) None 0;
    AddLink (1, 0%Z) (2, 0%Z); AddLink (1, 0%Z) (3, 0%Z); AddLink (1, 0%Z) (4, 1%Z); AddOrder 2 3;
-   DelLink (1, 0%Z) (3, 0%Z); AddLink (1, 0%Z) (3, 0%Z); DelNode 4; DelNode 3; AddNode 2 (Some 2) None 0;
-   AddLink (3, 0%Z) (2, 0%Z)].
+   DelLink (1, 0%Z) (3, 0%Z); AddLink (1, 0%Z) (3, 0%Z); DelNode 4; DelNode 3].
+Definition ex_history : list (bcmd nat nat) := ex_prefix ++ [AddNode 2 (Some 2) None 0; AddLink (3, 0%Z) (2, 0%Z)].
+Definition no_choice {X} (l : list X) : list (X * @ret) := map (fun c => (c, RUnit)) l.
 Definition ex_source : list (bcmd nat nat) :=
   [AddNode 1 None None 0; AddNode 1 None None 0; DelNode 1; AddNode 2 (Some 2) (Some 1%Z) 0;
    AddLink (1, 0%Z) (2, 0%Z); AddLink (1, 0%Z) (2, 0%Z); AddOrder 2 1].
-Definition ex_full : list (cmd nat nat) :=
-  map (@Basic nat nat) ex_history ++
-  [Insert 5 0 0 (trace (init 5 0) ex_source) (Some 2); Basic (AddLink (1, 0%Z) (6, 1%Z)); Basic (DelNode 3)].
+Definition ex_full : list (cmd nat nat * ret) :=
+  no_choice (map (@Basic nat nat) ex_history ++
+  [Insert 5 0 0 (trace_at (init 5 0) (no_choice ex_source)) (Some 2); Basic (AddLink (1, 0%Z) (6, 1%Z)); Basic (DelNode 3)]).
+(* the same calls when the implementation hands out index 4 (not the most recently freed 3) and copies the inserted
+   HUGR onto 3, 6, 5 *)
+Definition ex_full_choice : list (cmd nat nat * ret) :=
+  no_choice (map (@Basic nat nat) ex_prefix) ++
+  [(Basic (AddNode 2 (Some 2) None 0), RNode 4); (Basic (AddLink (4, 0%Z) (2, 0%Z)), RUnit);
+   (Insert 5 0 0 (trace_at (init 5 0) (no_choice ex_source)) (Some 2), RMap [(0, 3); (1, 6); (2, 5)]);
+   (Basic (AddLink (1, 0%Z) (6, 1%Z)), RUnit); (Basic (DelNode 4), RUnit)].
 Example C04_premises_satisfiable :
-  Forall annot_ok ex_full /\
+  Forall annot_ok (map fst ex_full) /\
   exists g', s_run (s_init 0 0 0) (ctrace (init 0 0) ex_full) = Next g' /\ length (a_links g') = 5 /\ length (a_nodes g') = 6.
 Proof.
   split.
-  - unfold ex_full. apply Forall_app. split; [apply Forall_forall; intros c Hc; apply in_map_iff in Hc; destruct Hc as (b & <- & _); exact I|].
+  - unfold ex_full, no_choice. rewrite map_map. cbn [fst]. rewrite map_id. apply Forall_app. split; [apply Forall_forall; intros c Hc; apply in_map_iff in Hc; destruct Hc as (b & <- & _); exact I|].
     repeat constructor.
+  - eexists. split; [vm_compute; reflexivity|]. split; vm_compute; reflexivity.
+Qed.
+Example C04_premises_satisfiable_with_other_choices :
+  Forall annot_ok (map fst ex_full_choice) /\
+  (* the choices are followed: the new node is 4, the copies are 3, 5, 6 *)
+  map snd (ctrace (init 0 0) ex_full_choice) =
+    [RNode 1; RNode 2; RNode 3; RNode 4; RUnit; RUnit; RUnit; RUnit; RUnit; RUnit; RUnit; RUnit; RNode 4; RUnit;
+     RMap [(0, 3); (2, 5); (1, 6)]; RUnit; RUnit] /\
+  exists g', s_run (s_init 0 0 0) (ctrace (init 0 0) ex_full_choice) = Next g' /\ length (a_links g') = 5 /\ length (a_nodes g') = 6.
+Proof.
+  split; [|split].
+  - unfold ex_full_choice, no_choice. rewrite map_app, map_map. cbn [fst]. rewrite map_id. apply Forall_app. split; [apply Forall_forall; intros c Hc; apply in_map_iff in Hc; destruct Hc as (b & <- & _); exact I|].
+    repeat constructor.
+  - vm_compute. reflexivity.
   - eexists. split; [vm_compute; reflexivity|]. split; vm_compute; reflexivity.
 Qed.
 
@@ -179,6 +229,9 @@ Print Assumptions C04_init.
 Print Assumptions C04_store_inv_reachable.
 Print Assumptions C04_step_inside_guard_returns.
 Print Assumptions C04_step_refines.
+Print Assumptions C04_step_refines_lifo.
+Print Assumptions C04_choice_keeps_invariant_and_state.
+Print Assumptions C04_admissible_choice_is_taken.
 Print Assumptions C04_store_refines_spec.
 Print Assumptions C04_spec_never_rejects.
 Print Assumptions C04_step_refines_with_insert.
